@@ -40,8 +40,22 @@ pub fn run(lines: &[Vec<String>]) {
     let mut fsrc = BTreeMap::new();
     let mut rsrc = BTreeMap::new();
     let mut ssrc = BTreeMap::new();
+    // `same_content`: every feature is parsed from ONE text (the union of all scenarios): distinct features (distinct
+    // `Source`s) whose gherkin values are equal - what a parser yields for the same file given twice
+    let same = lines.iter().any(|l| l[0] == "same_content");
+    if same {
+        let all_top: Vec<String> = top.values().flatten().cloned().collect::<std::collections::BTreeSet<_>>().into_iter().collect();
+        let all_rule: Vec<String> = in_rule.values().flatten().cloned().collect::<std::collections::BTreeSet<_>>().into_iter().collect();
+        let has_rule = !in_rule.is_empty();
+        for f in &feats {
+            top.insert(f.clone(), all_top.clone());
+            if has_rule {
+                in_rule.insert(f.clone(), all_rule.clone());
+            }
+        }
+    }
     for f in &feats {
-        let mut text = format!("Feature: {f}\n");
+        let mut text = format!("Feature: {}\n", if same { "same" } else { f.as_str() });
         for s in top.get(f).cloned().unwrap_or_default() {
             text.push_str(&format!("  Scenario: {s}\n    Given x\n"));
         }
@@ -64,10 +78,17 @@ pub fn run(lines: &[Vec<String>]) {
         fsrc.insert(f.clone(), Source::new(feat));
     }
     let rec = Rec::default();
+    let evrec = EvRec::default();
     let wrapper = lines.iter().find(|l| l[0] == "wrapper").map_or("normalize".to_owned(), |l| l[1].clone());
     assert_eq!(wrapper, "normalize", "mode stream knows `wrapper normalize` only");
-    let mut wr = writer::Normalize::new(rec.clone());
-    let cli = cli::Empty;
+    let mut wr = writer::Normalize::new(Both(rec.clone(), evrec.clone()));
+    let mut feed = |wr: &mut writer::Normalize<W, Both>, item: parser::Result<Event<Ev<W>>>, i: usize| {
+        // a panic inside the writer under test is reported, not fatal for the driver
+        let r = std::panic::catch_unwind(std::panic::AssertUnwindSafe(|| block_on(Writer::<W>::handle_event(wr, item, &cli::Empty))));
+        if r.is_err() {
+            println!("PANIC {i}");
+        }
+    };
     for (i, l) in lines.iter().filter(|l| l[0] == "item").enumerate() {
         if l[1] == "parse_error" {
             let item: parser::Result<Event<Ev<W>>> =
@@ -75,7 +96,7 @@ pub fn run(lines: &[Vec<String>]) {
                     path: "x".into(),
                     source: std::io::Error::other("x"),
                 })));
-            block_on(Writer::<W>::handle_event(&mut wr, item, &cli));
+            feed(&mut wr, item, i);
             println!("AFTER {i} {}", rec.log.lock().unwrap().len());
             continue;
         }
@@ -104,11 +125,50 @@ pub fn run(lines: &[Vec<String>]) {
             x => panic!("item {x}"),
         };
         let item: parser::Result<Event<Ev<W>>> = Ok(Event::new(ev));
-        block_on(Writer::<W>::handle_event(&mut wr, item, &cli));
+        feed(&mut wr, item, i);
         println!("AFTER {i} {}", rec.log.lock().unwrap().len());
     }
-    for s in rec.log.lock().unwrap().iter() {
-        println!("LOG {s}");
+    // features are named as the SCRIPT names them, found by pointer identity (their gherkin names may all be the same)
+    let name_of = |f: &Source<gherkin::Feature>| -> String {
+        fsrc.iter().find(|(_, v)| std::ptr::eq::<gherkin::Feature>(&***v, &**f)).map_or("?".to_owned(), |(k, _)| k.clone())
+    };
+    for (s, e) in rec.log.lock().unwrap().iter().zip(evrec.0.lock().unwrap().iter()) {
+        let line = match e {
+            Some(f) if s.starts_with("feature[") => {
+                let rest = &s[s.find(']').unwrap()..];
+                format!("feature[{}{rest}", name_of(f))
+            }
+            _ => s.clone(),
+        };
+        println!("LOG {line}");
     }
     println!("RESULT delivered={}", rec.log.lock().unwrap().len());
 }
+
+
+/// keeps the feature `Source` of every event it receives (`None` for run-level items and parser errors)
+#[derive(Clone, Default)]
+struct EvRec(std::sync::Arc<std::sync::Mutex<Vec<Option<Source<gherkin::Feature>>>>>);
+
+/// the recording writer plus the identity recorder
+#[derive(Clone)]
+pub struct Both(Rec, EvRec);
+
+impl Writer<W> for Both {
+    type Cli = cli::Empty;
+
+    async fn handle_event(&mut self, ev: parser::Result<Event<Ev<W>>>, c: &Self::Cli) {
+        let f = match &ev {
+            Ok(e) => match &**e {
+                Ev::Feature(f, _) => Some(f.clone()),
+                _ => None,
+            },
+            Err(_) => None,
+        };
+        self.1 .0.lock().unwrap().push(f);
+        <Rec as Writer<W>>::handle_event(&mut self.0, ev, c).await;
+    }
+}
+
+impl writer::NonTransforming for Both {}
+impl writer::Normalized for Both {}
